@@ -7,9 +7,8 @@ import (
 	"fmt"
 	"regexp"
 	"runtime"
-		"sort"
+	"sort"
 	"strings"
-	"time"
 
 	"github.com/gocql/gocql"
 	"verif/engine/report"
@@ -253,8 +252,6 @@ func padded(in *vinput) (data, whole []byte) {
 func allocBound(n int) uint64 { return 1<<20 + 64*uint64(n) }
 
 func runValuesBlock(c *child, b int) {
-	tb0 := time.Now()
-	defer func() { c.count("t_block_us", time.Since(tb0).Microseconds()) }()
 	cat := catalogue(c.thorough)
 	n := cat[b/len(valueVersions)]
 	proto := valueVersions[b%len(valueVersions)]
